@@ -21,9 +21,9 @@ ENTRY = {'coq_dir': 'C08',
          'cases/5 composed cases: real ProtocolSets (one per connection) feed ONE real TransportService through its real event channel built with '
          'capacity 1 (reports wait for room as runtime tasks, the service consumes at most one event per poll, open_substream commands are read off '
          'the real ProtocolSet); the trace is a report-level case+trace and a service-level case+trace whose inputs are the delivered events, and '
-         "must satisfy both oracles; report-level cases may kill a protocol's receiver (known class 1 = F-C07b), open_substream may meet a full "
-         'command channel (ChannelClogged), the id counter may start a few below 2^64 and wrap; non-trivial = trace of >= 40 numbers; distinct = '
-         'distinct (case, trace) pairs',
+         "must satisfy both oracles; report-level cases may kill a protocol's receiver (established/closed must still reach every live protocol: "
+         'pins fix 2c7c81a), open_substream may meet a full command channel (ChannelClogged), the id counter may start a few below 2^64 and wrap; '
+         'non-trivial = trace of >= 40 numbers; distinct = distinct (case, trace) pairs',
  'trusted_base': ["environment assumption of the theorems: connection ids are fresh and at most two connections per peer are open at a time (C06's "
                   'guarantee), closed/substream notifications refer to an open connection (per-connection FIFO of the connection task), answers '
                   'refer to an open request',
@@ -43,14 +43,16 @@ ENTRY = {'coq_dir': 'C08',
                'DEFAULT_CHANNEL_SIZE); once the answer event reaches the service after the open, the open is resolved: answered exactly once or its '
                'connection closed; the substream-id counter is modelled modulo 2^64 (usize): ids are unique in every history that draws at most 2^64 '
                'of them, and strictly increasing while the counter does not wrap (the at-most-once theorems carry that no-wrap hypothesis); '
-               'ChannelClogged (full command channel) draws an id, puts nothing in flight and issues no command; with a dead protocol '
-               'report_connection_established fails after having told exactly the live protocols polled before it whose channel had room, and no '
-               'closed event is ever produced for that connection (known class 1, F-C07b); a counterexample shows the two-per-peer assumption is '
-               'needed. The model is tied to transport_service.rs / connection.rs by a per-operation differential run with state dumps.',
+               'ChannelClogged (full command channel) draws an id, puts nothing in flight and issues no command; with dead protocols in the table '
+               '(fix 2c7c81a) report_connection_established tells every live protocol exactly once and never fails, a later closed reaches exactly '
+               'the live protocols, and every protocol alive at the end has been handed exactly the accepted established/closed reports of the '
+               'history, in order (paired); the pre-fix behaviour is kept as a refuted variant with its witness; a counterexample shows the '
+               'two-per-peer assumption is needed. The model is tied to transport_service.rs / connection.rs by a per-operation differential run '
+               'with state dumps.',
  'level_note': 'Trusted: Coq kernel, extraction, harness and hooks, the environment assumption (discharged by C06 for the connection count), the '
                'atomic-handler abstraction. That the connection task answers every OpenSubstream command (tcp/connection.rs) is an explicit '
-               "hypothesis of C08_open_answered, not proved here (C07's side). The poll order of report_connection_established is the iteration "
-               'order of a HashMap: the harness reads it off the same table and writes it into the case (stored cases are re-masked per run). The '
+               "hypothesis of C08_open_answered, not proved here (C07's side). The poll order of report_connection_established (a HashMap iteration "
+               'order) no longer matters since fix 2c7c81a; the harness still writes it into the case for the pre-fix variant of the model. The '
                'composed stream uses capacity 1 so that every consumed event is observable on its own; larger capacities are covered by the '
                'report-level stream only.',
  'assumptions': ['at most two open connections per peer, fresh connection ids (C06)',
